@@ -359,6 +359,10 @@ func (ssc *StatefulSetController) adoptOrphanRevisions(set *apps.StatefulSet) er
 		}
 	}
 	if hasOrphans {
+		// a set that is being deleted adopts nothing
+		if set.DeletionTimestamp != nil {
+			return nil
+		}
 		for i := range revisions {
 			if shouldSyncLabels(revisions[i]) {
 				revisions[i], err = syncLabels(ssc.kubeClient, set, revisions[i])
@@ -373,6 +377,9 @@ func (ssc *StatefulSetController) adoptOrphanRevisions(set *apps.StatefulSet) er
 		}
 		if fresh.UID != set.UID {
 			return fmt.Errorf("original StatefulSet %v/%v is gone: got uid %v, wanted %v", set.Namespace, set.Name, fresh.UID, set.UID)
+		}
+		if fresh.DeletionTimestamp != nil {
+			return fmt.Errorf("%v/%v has just been deleted at %v", set.Namespace, set.Name, fresh.DeletionTimestamp)
 		}
 		return ssc.control.AdoptOrphanRevisions(set, revisions)
 	}
